@@ -144,8 +144,11 @@ def mutants():
     kf = json.load(open(os.path.join(VERIF, "known_findings.json")))
     for f in kf["findings"]:
         if f.get("status") == "fixed":
+            # later fixes may have rewritten the same lines: ``revert_chain`` lists the commits to reverse,
+            # newest first, ending with the fix itself
             out.append({"id": "rev-" + f["id"], "prop": f["property"], "kind": "reverse-fix", "commit": f["commit"],
-                        "what": "reverse of " + f["commit"] + ": " + f["what"]})
+                        "chain": f.get("revert_chain") or [f["commit"]],
+                        "what": "reverse of " + "+".join(f.get("revert_chain") or [f["commit"]]) + ": " + f["what"]})
     sd = os.path.join(VERIF, "seeded")
     if os.path.isdir(sd):
         for name in sorted(os.listdir(sd)):
@@ -173,9 +176,13 @@ def main():
             if m["kind"] == "corpus":
                 err = apply_subst(d, m)
             elif m["kind"] == "reverse-fix":
-                diff = subprocess.run(["git", "-C", REPO, "show", m["commit"], "--", "statemachine"],
-                                      capture_output=True, text=True).stdout
-                err = apply_patch(d, diff, reverse=True)
+                err = None
+                for c_ in m["chain"]:
+                    diff = subprocess.run(["git", "-C", REPO, "show", c_, "--", "statemachine"],
+                                          capture_output=True, text=True).stdout
+                    err = apply_patch(d, diff, reverse=True)
+                    if err:
+                        break
             else:
                 err = apply_patch(d, open(m["patch"]).read())
                 if err and m.get("base_commit"):
